@@ -9,7 +9,8 @@ CLAIM = {
                "scaled mode reduced to the C12 arithmetic obligation and refuted in the primitive-float model; differential execution of "
                "both directions against the real fitcsv package + direct FIT->CSV->FIT oracle over all profile messages",
   "text": "PARTIAL proof. Proved for all inputs: every CSV row has the header's number of cells (cell level); print/parse of integers "
-          "round-trips; a raw integer cell parses back to itself for all 14 integer base types; a scaled cell round-trips iff "
+          "round-trips; a raw integer cell parses back to itself for all 14 integer base types; the output has one sequence per file_id row of the CSV "
+          "(CSV->FIT side of the chain clause; file_id's name resolves to 0 and no other profile name does); a scaled cell round-trips iff "
           "to_int(discard(apply x)) = x, which is refuted for the truncating conversion the source uses (16039 -> 16038, finding "
           "trunc_loses_unit). NOT proved but validated by correspondence on every run: CSV quoting (encoding/csv), float text (strconv), "
           "the file-level composition of the cell lemmas (messages, sub-field reversal, unknown(N) recovery, developer fields, chained "
@@ -87,7 +88,7 @@ def run(ctx):
     if ok:
         ctx.props()
     else:
-        ctx.cov["obligations"] += 9
+        ctx.cov["obligations"] += 11
         ctx.broken.append("Props/C19.vo or Run/RunC19.vo does not build")
     hits = ctx.forbidden_scan()
     if hits:
@@ -104,7 +105,7 @@ def run(ctx):
         ctx.cov["notes"].append(note[:300])
     for rem in h.lines.get("REMARK", [])[:8]:
         ctx.cov["notes"].append("remark (outside the stated scope): " + rem[:400])
-    nontrivial = [c for c in h.cases if '"Data"' in c]
+    nontrivial = [c for c in h.cases if "Data" in c and "VOne" in c]
     ctx.count(h.stats.get("cases", 0) + len(h.cases), nontrivial)
     found = _report(ctx, h, False)
 
